@@ -39,23 +39,26 @@ def sqApprox (p : Nat) (x : Rat) : Rat :=
   if sn * sn = n ∧ sd * sd = d then mkRat sn sd
   else mkRat (Nat.sqrt (n * 4 ^ p / d)) (2 ^ p)
 
-partial def parseOp (sq : Rat → Rat) (j : Json) : Except String Op := do
+/-- round down to a multiple of `2^-p` -/
+def rndP (p : Nat) (x : Rat) : Rat := mkRat ((x.num * (2 ^ p : Nat)) / (x.den : Int)) (2 ^ p)
+
+partial def parseOp (ar : Arith) (j : Json) : Except String Op := do
   match j.getObjVal? "mat" with
   | .ok m => return .mat (← vecList m)
   | .error _ =>
   match j.getObjVal? "shift" with
   | .ok a => match ← getArr a with
-    | [o, s] => return .shift (← parseOp sq o) (← getRat s)
+    | [o, s] => return .shift (← parseOp ar o) (← getRat s)
     | _ => throw "bad shift"
   | .error _ =>
   match j.getObjVal? "ortho" with
   | .ok a => match ← getArr a with
-    | [o, vs, rc] => return .ortho (← parseOp sq o) (gramSchmidt sq (← getRat rc) (← vecList vs))
+    | [o, vs, rc] => return .ortho (← parseOp ar o) (gramSchmidt ar (← getRat rc) (← vecList vs))
     | _ => throw "bad ortho"
   | .error _ =>
   match j.getObjVal? "sum" with
   | .ok a => match ← getArr a with
-    | [x, y] => return .sum (← parseOp sq x) (← parseOp sq y)
+    | [x, y] => return .sum (← parseOp ar x) (← parseOp ar y)
     | _ => throw "bad sum"
   | .error _ => throw "bad op"
 
@@ -66,10 +69,11 @@ def parseOpts (j : Json) : Except String Opts := do
 
 def handle (j : Json) : Except String Json := do
   let k ← getStr (← field j "k")
-  let p ← getNat (fieldD j "prec" (160 : Nat))
-  let sq := sqApprox p
+  let p ← getNat (fieldD j "prec" (200 : Nat))
+  let exact ← getBool (fieldD j "exact" false)
+  let ar : Arith := { sq := sqApprox p, rnd := if exact then id else rndP p }
   if k == "lanczos" || k == "evo" then
-    let H ← parseOp sq (← field j "H")
+    let H ← parseOp ar (← field j "H")
     let psi0 ← ratList (← field j "psi0")
     let o ← parseOpts (← field j "opts")
     let esh ← optOf getRat (fieldD j "E_shift" Json.null)
@@ -78,41 +82,41 @@ def handle (j : Json) : Except String Json := do
     let conv : Nat → List Rat → List Rat → Bool := fun k _ _ => k + 1 == nsteps
     if k == "lanczos" then
       let E ← getRat (← field j "E")
-      match runGS H sq o esh conv (fun _ _ _ => (E, vf)) psi0 with
+      match runGS H ar o esh conv (fun _ _ _ => (E, vf)) psi0 with
       | none => return obj [("raise", "psi0-norm-too-small")]
       | some r => return obj [("N", r.N), ("E0", ofRat r.E0), ("psi", ofVec r.psi),
                               ("alphas", ofVec r.alphas), ("betas", ofVec r.betas)]
     else
       let rn ← getRat (← field j "rn")
       let nz ← getBool (← field j "normalize")
-      match runEvo H sq o esh conv (fun _ _ _ => (vf, rn)) nz psi0 with
+      match runEvo H ar o esh conv (fun _ _ _ => (vf, rn)) nz psi0 with
       | none => return obj [("raise", "psi0-norm-too-small")]
       | some (psi, N) => return obj [("N", N), ("psi", ofVec psi)]
   else if k == "arnoldi" then
-    let H ← parseOp sq (← field j "H")
+    let H ← parseOp ar (← field j "H")
     let psi0 ← ratList (← field j "psi0")
     let nMin ← getNat (← field j "N_min")
     let nMax ← getNat (← field j "N_max")
     let cutoff ← getRat (← field j "cutoff")
     let nsteps ← getNat (← field j "nsteps")
     let vfs ← vecList (← field j "vfs")
-    let (N, s) := arnoldiBuild H.apply sq nMin nMax cutoff (fun k _ => k + 1 == nsteps) psi0
-    let psis := if N = 1 then [scale (1 / sq (dot psi0 psi0)) psi0]
-                else vfs.map (fun vf => arnoldiResult sq vf s.cache)
+    let (N, s) := arnoldiBuild H.apply ar nMin nMax cutoff (fun k _ => k + 1 == nsteps) psi0
+    let psis := if N = 1 then [normalize ar (ar.sq (dot psi0 psi0)) psi0]
+                else vfs.map (fun vf => arnoldiResult ar vf s.cache)
     return obj [("N", N), ("cols", ofVecs s.cols), ("psis", ofVecs psis)]
   else if k == "gmres" then
-    let H ← parseOp sq (← field j "H")
+    let H ← parseOp ar (← field j "H")
     let x ← ratList (← field j "x")
     let b ← ratList (← field j "b")
     let n ← getNat (← field j "n")
-    let (x', errs) := gmresCycle H.apply sq n x b
+    let (x', errs) := gmresCycle H.apply ar n x b
     return obj [("x", ofVec x'), ("errs", ofVec errs)]
   else if k == "gs" then
     let vecs ← vecList (← field j "vecs")
     let rc ← getRat (← field j "rcond")
-    return obj [("vecs", ofVecs (gramSchmidt sq rc vecs))]
+    return obj [("vecs", ofVecs (gramSchmidt ar rc vecs))]
   else if k == "op" then
-    let H ← parseOp sq (← field j "H")
+    let H ← parseOp ar (← field j "H")
     let v ← ratList (← field j "v")
     return obj [("v", ofVec (H.apply v))]
   else throw s!"unknown kind {k}"
